@@ -64,6 +64,20 @@ def identity_measure(ck, rule, rcmp):
         ident = dict(pa0.value[2]).get("identity")
         if ident is None:
             raise AnalysisError(f"{where(rcmp, pa0.node)}: the comparison row has no identity")
+        if ident[0] == "c":
+            # a compared row whose identity is a constant: the pair lists were not looked at - only an alignment without pairs
+            # can justify that (the guard must say so)
+            n += 1
+            empties = [c0 for c0, tv0, _ in pa0.state.assumptions
+                       if (not tv0 and c0[0] in ("v", "attr", "app", "call")) or (tv0 and c0[0] == "not")]
+            conds = "; ".join(("" if tv0 else "not ") + T.show(c0)[:70] for c0, tv0, _ in pa0.state.assumptions[-3:])
+            if not empties:
+                ck.violation(rule, short(rcmp) + ":identity:constant", where(rcmp, pa0.node),
+                             f"a compared row is given the identity {ident[1]!r} without its pair lists being compared: whatever the "
+                             "short cut assumes about the lists (sorted by reference position, ...), an alignment compared with itself "
+                             "must come out with identity 1", found="path under: " + (conds or "<no condition>"),
+                             required="identity = SequenceMatcher(None, pairs1, pairs2).ratio() on every path")
+            continue
         if ident[0] == "app" and ident[1] in p.functions:
             fn = p.functions[ident[1]]
             vals = [(pa.value, where(fn, pa.node)) for pa in explore(ck, fn) if pa.outcome == "return"]
@@ -103,6 +117,12 @@ def run(ck):
     ck.clause("C19.1", "three-way partition of the keys by complementary membership tests; consistent 1/2 roles")
     ck.clause("C19.2", "counters exhaustive and disjoint over the row kinds; only-rows have identity 0")
     ck.clause("C19.3", "row comparison is symmetric in its two arguments; coverage formula")
+    ck.clause("C19.6", "comparing does not alter what is compared: no store into alignedPairs (attribute, element or in place - a "
+                       "shallow copy shares the list) in the comparer: compare(B, A) after compare(A, B) must see the same alignments")
+    from ..report import RuleView as _RV19
+    from .c02 import records_frozen as _rf19
+    _rf19(_RV19(ck, {"C19.6": "C19.6"}, only_files=("src/diagnostic/alignment_comparer.py", "src/diagnostic/benchmark_alignment.py",
+                                                    "src/compare_alignments.py")), "C19.6")
     cmp_fn = p.find_method("AlignmentComparer", "compare")
     a1, a2 = [V(pp.name) for pp in cmp_fn.call_params()]
     # the private helper that turns an alignment set into its key dictionary: the one compare applies to each of its two arguments
